@@ -138,6 +138,52 @@ def run(ctx):
                     elif isinstance(x, int) and not isinstance(x, bool) and not (lo <= x <= hi):
                         res.add(Violation(PROP, "validator-accepts-out-of-range", vname, "%s returned True for an out-of-range int" % label,
                                           {"engine": "GRID", "call": label, "input": None}))
+    # ---- histories: the verdict for an int must not depend on what was validated before (values that compare
+    # equal to it but are no ints: 7.0, Fraction(7), Decimal(7), 7+0j), at the validators and at both entry points
+    hist_calls = 0
+    poisons = [("float", float), ("Fraction", fractions.Fraction), ("Decimal", decimal.Decimal), ("complex", complex)]
+    fresh = iter(range(100003, 200000, 7))
+    for vname, lo, hi in (("integer_validator", INT_MIN, INT_MAX), ("uinteger_validator", UINT_MIN, UINT_MAX)):
+        fn = getattr(validators, vname)
+        at = attrs.fields(lsp.Position).line
+        for pname, pf in poisons:
+            for in_range in (True, False):
+                n = next(fresh) if in_range else hi + next(fresh)
+                for order in ("poison-first", "int-first"):
+                    n2 = n + (0 if order == "poison-first" else 1)
+                    seq = [pf(n2), n2] if order == "poison-first" else [n2, pf(n2), n2]
+                    verdicts = []
+                    for x in seq:
+                        hist_calls += 1
+                        try:
+                            verdicts.append(fn(pos, at, x) is True)
+                        except ValueError:
+                            verdicts.append(False)
+                        except Exception as e:  # noqa: BLE001
+                            verdicts.append(type(e).__name__)
+                    want = lo <= n2 <= hi
+                    int_verdicts = [v for x, v in zip(seq, verdicts) if isinstance(x, int)]
+                    if any(v is not want for v in int_verdicts):
+                        res.add(Violation(PROP, "validator-history", vname, "%s: verdicts for the int %d are %s after the call sequence %r (expected %s every time)" % (
+                            vname, n2, int_verdicts, [repr(x) for x in seq], want), {"engine": "GRID", "call": vname, "history": [repr(x) for x in seq], "input": None}, extra=pname))
+    # the same through the entry points: Position(line=n.0) / structure with n.0 first, then the int
+    for pname, pf in poisons[:1]:
+        for ep in ("constructor", "structure"):
+            n = next(fresh)
+            for x in (pf(n), n):
+                hist_calls += 1
+                try:
+                    if ep == "constructor":
+                        lsp.Position(line=x, character=0)
+                    else:
+                        conv.structure({"line": x, "character": 0}, lsp.Position)
+                    ok = True
+                except Exception:  # noqa: BLE001
+                    ok = False
+                if isinstance(x, int) and not ok:
+                    res.add(Violation(PROP, "entry-point-history", "Position.line", "%s rejects the in-range int %d after having seen %r" % (ep, n, pf(n)),
+                                      {"engine": "GRID", "entry": ep, "history": [repr(pf(n)), n], "input": None}, extra=ep))
+    vcalls += hist_calls
     res.coverage = {
         "states": len(pairs) * len(g), "transitions": execs + vcalls,
         "traces_validated_against_impl": execs + vcalls, "evaluations": execs + vcalls,
